@@ -25,7 +25,9 @@ P1_RULE = ("histories generated from one SplitMix64 state: commits of 1..6 ops o
            "reopen (and crash for C02/C03/C07); distinct = by SHA-1 of the op list; non-trivial = the history had data "
            "in at least two different pipeline stages at some observation point")
 
-HOOK_COMMITS = ["7b1e3f5 verif hook: lowered initial ref-count table size for tests, yield points in commit_changes (cfg pdb_verif)",
+HOOK_COMMITS = [
+    "754005b verif hook: yield point between two table writes of a record in enact_logs (cfg pdb_verif)",
+    "7883075 verif hook: event journal at the pipeline hand-over sites (cfg pdb_verif)","7b1e3f5 verif hook: lowered initial ref-count table size for tests, yield points in commit_changes (cfg pdb_verif)",
                 "556ca83 verif hook: raw node bytes in the btree dump, Node::from_encoded on given bytes (cfg pdb_verif)",
                 "9377f92 verif hook: yield points around the deferral check of process_commits (cfg pdb_verif)",
                 "bb68460 verif hook: read-only dump of the multitree node forest and ref-count tables (cfg pdb_verif)",
